@@ -266,6 +266,7 @@ def canon_null(o):
 
 def run(ctx):
     ctx.lean = common.lean_check('C18')
+    common.run_regressions(ctx, 'C18', lambda r: recheck(r))
     corpus = common.load_corpus('C18')
     rref, lins, nul, sgn = gen_cases(ctx)
     rref = [c for c in corpus if c.get('kind') == 'rref'] + rref
@@ -322,3 +323,6 @@ def replay(obj):
     print('implementation returned:', common.canon_json(out))
     print('oracle:', why or 'ok')
     return 1 if why else 0
+
+
+recheck = common.recheck_via_replay(replay)
